@@ -377,6 +377,36 @@ def r5_recognizer_pairing(F, res):
             res.ok(rid, "terminal-iteration", f.loc(), "for term in &grammar.terminals, under LexerType::Default")
         break
     if not found:
+        # second spelling: grammar.terminals.iter().find/any/position(|t| .. t.recognizer.is_none()) answered with an Err
+        for p in Sim(f, F, max_paths=200000).run():
+            if p.end != "return":
+                continue
+            for e in p.events:
+                if e[0] != "call" or not any(mir.call_matches(e[1], "Iterator::" + m) for m in ("find", "any", "position", "find_map")):
+                    continue
+                src, clo = e[2][0], (e[2][1] if len(e[2]) > 1 else None)
+                if not (isinstance(clo, tuple) and clo[0] == "closure" and clo[1] in F.fns):
+                    continue
+                g = F.fns[clo[1]]
+                looks = any(mir.has_field(tm, "recognizer", "Terminal") for q in Sim(g, F).run()
+                            for tm in [c[0] for c in q.cond] + [e2[1] for e2 in q.events if e2[0] == "return"])
+                if not looks:
+                    continue
+                found = True
+                bad = [mir.short(x[1]) for x in mir.calls_in(src) if any(k in x[1] for k in ("filter", "skip", "take", "step_by", "rev"))]
+                lex = [(tt, v) for tt, v in p.cond if tt[0] == "discr" and mir.has_field(tt[1], "lexer_type", "Settings")]
+                if bad:
+                    res.violation(rid, "terminal-iteration", "the recogniser-presence check skips terminals (%s)" % ", ".join(bad), f.loc())
+                elif not mir.has_field(src, "terminals", "Grammar"):
+                    res.violation(rid, "terminal-iteration", "the recogniser-presence check does not iterate grammar.terminals: %s" % fmt(src)[:120], f.loc())
+                elif not lex or lex[-1][1] != frozenset(["Default"]):
+                    res.violation(rid, "lexer-type", "the recogniser-presence check is not under lexer_type == Default", f.loc())
+                else:
+                    res.ok(rid, "terminal-iteration", f.loc(), "grammar.terminals.iter().find(no recogniser), under LexerType::Default")
+                break
+            if found:
+                break
+    if not found:
         res.violation(rid, "check-missing", "generate_parser has no path that rejects a terminal without recogniser", f.loc())
 
 
